@@ -983,3 +983,30 @@ def rewrite_expr_after_zero_trip_loop(r):
         if isinstance(st, LoopIR.For) and isinstance(st.lo, LoopIR.Const) and isinstance(st.hi, LoopIR.Const) and st.lo.val == st.hi.val:
             return True
     return False
+
+
+def c02_stage_mem_of_aliased_buffer(r):
+    """stage_mem is not alias-aware (KF15): when the staged buffer has window aliases (w = x[...]; v = w[...]) the
+    aliases are re-pointed at the staging buffer but their types still name the old root, so the backend declares
+    `v` as a const window although it is written and the C compiler rejects `v.data[...] = ...`; where it does
+    compile, writes through the alias are never copied back"""
+    if r.get("property") not in ("C02", "C08"):
+        return False
+    how = r.get("how") or {}
+    if how.get("op") != "stage_mem":
+        return False
+    import corpus.seeds as S
+
+    try:
+        p = S.by_name(r["seed"])
+    except Exception:
+        return False
+    m = re.match(r"(\w+)", str((how.get("enc") or [{}, {}])[1].get("v", "")))
+    if not m:
+        return False
+    buf = m.group(1)
+    aliases = set()
+    for st in _all_stmts(p._loopir_proc.body):
+        if isinstance(st, LoopIR.WindowStmt) and (str(st.rhs.name) == buf or st.rhs.name in aliases):
+            aliases.add(st.name)
+    return bool(aliases)
